@@ -11,8 +11,8 @@ on a disk that holds the original recording `probe00/X.ap.{bin|cbin}` (+ `.meta`
 the sibling folders `probe00a … probe00d` with `X.ap.*` and `X.lf.*`, or -- for NP2.1 -- the `X.lf.*` files
 next to the original.  The disk is abstracted to which files exist and what they contain:
 
-  * a `.bin` written window by window is `absent`, `part k` (the first `k` windows' worth of rows, the
-    handle was never closed), or `whole d` with `d = good c` (bit-identical to what the original with content
+  * a `.bin` written window by window is `absent`, `part k ok` (the first `k` windows' worth of rows, the
+    handle was never closed; `ok` = those rows are bit-identical to the original's), or `whole d` with `d = good c` (bit-identical to what the original with content
     id `c` yields) or `bad` (complete size, a sample differs);
   * a `.cbin` is published by `rename` (spikeglx.Reader.compress_file) and is therefore always complete:
     `none` or `some d`; `.ch`, `.cbin_tmp`, `.meta` are present or not.
@@ -55,8 +55,9 @@ The transcribed methods, in the order of their effects on the disk:
 
 Interruptions are exceptions raised *by the environment* at the `j`-th call (0-based) of one of the converter's
 own steps; an index beyond the number of calls the run makes does not fire.  The environment may also make the
-split unfaithful (`corrupt = some i`: the last row written to shank `i`'s ap file is altered) -- that is
-what `check_NP24` exists to catch.
+split unfaithful (`corrupt = some a`: one sample of a row that processing window `a.kp` writes to shank `a.shank`'s ap
+file, lying in verification window `a.kv`, is altered before it is written) -- that is what `check_NP24` exists to
+catch, in whichever window the difference lies.
 -/
 import IblVerif.Model.Window
 
@@ -71,7 +72,7 @@ inductive Data | good (c : Nat) | bad
 deriving DecidableEq, Repr
 
 /-- A `.bin` written window by window through a handle opened with `"wb"`. -/
-inductive Bin | absent | part (k : Nat) | whole (d : Data)
+inductive Bin | absent | part (k : Nat) (ok : Bool) | whole (d : Data)
 deriving DecidableEq, Repr
 
 /-- The files of one stream (`X.ap.*` or `X.lf.*`) inside one folder. -/
@@ -122,12 +123,20 @@ before it is renamed.  `delete`: at the call of `delete_NP24`. -/
 inductive Point | split (j : Nat) | md (j : Nat) | verify (k : Nat) | compress (j : Nat) | delete
 deriving DecidableEq, Repr
 
+/-- An unfaithful split: the environment alters one AP sample of shank `shank`, in a row that processing window `kp`
+keeps (so the file holds it once more than `kp` windows have been written) and that verification window `kv` reads. -/
+structure Alter where
+  shank : Nat
+  kp : Nat
+  kv : Nat
+deriving DecidableEq, Repr
+
 structure Call where
   opts : Opts
   overwrite : Bool
   interrupt : Option Point
-  /-- the environment alters the last row written to this shank's ap file (NP2.4 only) -/
-  corrupt : Option Nat
+  /-- the environment alters one sample written to a shank's ap file (NP2.4 only) -/
+  corrupt : Option Alter
   /-- the converter is pointed at shank 0's ap file (an already split shank) instead of the original -/
   onShank : Bool
 deriving DecidableEq, Repr
@@ -180,10 +189,11 @@ def origReadable (s : Disk) : Bool :=
   | .cbin => s.och
 
 /-- `open(file, "wb")`: created or truncated. -/
-def openWb (st : FileSet) : FileSet := { st with bin := .part 0 }
+def openWb (st : FileSet) : FileSet := { st with bin := .part 0 true }
 
-/-- A file after `k` of the `nwin` windows have been written to it. -/
-def written (nwin k : Nat) (d : Data) : Bin := if nwin ≤ k then .whole d else .part k
+/-- A file after `k` of the `nwin` windows have been written to it: whole with data `d`, or the first `k` windows
+(`ok`: bit-identical so far). -/
+def written (nwin k : Nat) (d : Data) (ok : Bool) : Bin := if nwin ≤ k then .whole d else .part k ok
 
 /-- Apply `f i` to every shank folder `i < n`. -/
 def onShanks (n : Nat) (f : Nat → Option Shank → Option Shank) (s : Disk) : Disk :=
@@ -200,15 +210,27 @@ def prepare24 (n : Nat) (ow : Bool) (s : Disk) : Disk := onShanks n (fun _ o => 
 def alreadyExists24 (n : Nat) (ow : Bool) (s : Disk) : Bool :=
   !ow && (List.range n).any fun i => (s.shanks i).isSome
 
+/-- The environment's alteration lands in shank `i`'s ap file (its processing window exists). -/
+def altered (cfg : Cfg) (call : Call) (i : Nat) : Bool :=
+  match call.corrupt with
+  | some x => x.shank == i && decide (x.kp < nproc cfg)
+  | none => false
+
 /-- What this run writes for shank `i`'s ap file. -/
 def apData (cfg : Cfg) (call : Call) (i : Nat) : Data :=
-  if call.corrupt = some i then .bad else .good cfg.c
+  if altered cfg call i then .bad else .good cfg.c
+
+/-- The first `a` windows written to shank `i`'s ap file are still bit-identical. -/
+def apPrefixOk (call : Call) (i a : Nat) : Bool :=
+  match call.corrupt with
+  | some x => !(x.shank == i && decide (x.kp < a))
+  | none => true
 
 /-- State of the shank files after `j` `_split2shanks` calls (ap of window 0, lf of window 0, ap of window 1, …). -/
 def windows24 (cfg : Cfg) (call : Call) (j : Nat) (s : Disk) : Disk :=
   onShanks cfg.n (fun i o => o.map fun sh =>
-    { ap := { sh.ap with bin := written (nproc cfg) ((j + 1) / 2) (apData cfg call i) },
-      lf := { sh.lf with bin := written (nproc cfg) (j / 2) (.good cfg.c) } }) s
+    { ap := { sh.ap with bin := written (nproc cfg) ((j + 1) / 2) (apData cfg call i) (apPrefixOk call i ((j + 1) / 2)) },
+      lf := { sh.lf with bin := written (nproc cfg) (j / 2) (.good cfg.c) true } }) s
 
 /-- After `m` `write_meta_data` calls: ap metas of shanks `0 … n-1`, then lf metas. -/
 def metas24 (n m : Nat) (s : Disk) : Disk :=
@@ -231,7 +253,14 @@ def compress24 (cfg : Cfg) (call : Call) (q : Nat) (s : Disk) : Disk :=
 
 /-- `check_NP24` finds a difference: some shank's ap file is not bit-identical to the original's columns. -/
 def splitDiffers (cfg : Cfg) (call : Call) : Bool :=
-  (List.range cfg.n).any fun i => call.corrupt = some i
+  (List.range cfg.n).any fun i => altered cfg call i
+
+/-- Number of `Reader.read` calls `check_NP24` makes before it stops: `1 + n` per verification window, up to and
+including the window that holds the altered sample (its `assert` ends the loop), else all windows. -/
+def verifyReads (cfg : Cfg) (call : Call) : Nat :=
+  match call.corrupt with
+  | some x => if splitDiffers cfg call then min ((x.kv + 1) * (1 + cfg.n)) (nverif cfg * (1 + cfg.n)) else nverif cfg * (1 + cfg.n)
+  | none => nverif cfg * (1 + cfg.n)
 
 /-- `_process_NP24` on the original. -/
 def process24 (cfg : Cfg) (call : Call) (s : Disk) : Disk × Result :=
@@ -249,8 +278,8 @@ def process24 (cfg : Cfg) (call : Call) (s : Disk) : Disk × Result :=
   let m := stopAt call.interrupt Point.metaIdx (2 * cfg.n)
   let s3 := metas24 cfg.n m s2
   if m < 2 * cfg.n then (s3, .raised .injected) else
-  -- if self.post_check: self.check_NP24()      (the altered row is in the last verification window)
-  if call.opts.postCheck && decide (stopAt call.interrupt Point.verifyIdx (nverif cfg * (1 + cfg.n)) < nverif cfg * (1 + cfg.n))
+  -- if self.post_check: self.check_NP24()      (the assert of the window holding the altered sample ends the loop)
+  if call.opts.postCheck && decide (stopAt call.interrupt Point.verifyIdx (verifyReads cfg call) < verifyReads cfg call)
     then (s3, .raised .injected) else
   if call.opts.postCheck && splitDiffers cfg call then (s3, .raised .assertion) else
   let checkCompleted := call.opts.postCheck
@@ -275,7 +304,7 @@ def process21 (cfg : Cfg) (call : Call) (s : Disk) : Disk × Result :=
   if lfExists s && !call.overwrite then (s, .ret 0) else
   let tot := nproc cfg
   let j := stopAt call.interrupt Point.splitIdx tot
-  let s2 := { s with lf := { s.lf with bin := written tot j (.good cfg.c) } }
+  let s2 := { s with lf := { s.lf with bin := written tot j (.good cfg.c) true } }
   if j < tot then (s2, .raised .injected) else
   -- self._writemetadata_lf(): one write_meta_data call
   let m := stopAt call.interrupt Point.metaIdx 1
@@ -302,7 +331,7 @@ def targetComplete (s : Disk) : Bool :=
       (match sh.ap.bin with
        | .whole _ => true
        | .absent => sh.ap.cbin.isSome && sh.ap.ch
-       | .part _ => false)
+       | .part _ _ => false)
 
 /-- One call of a history. -/
 def run (cfg : Cfg) (call : Call) (s : Disk) : Disk × Result :=
